@@ -143,7 +143,10 @@ def session(draw, max_ops=5, ops_allowed=None, big=True, with_frag=False, with_w
             cmd = draw(st.sampled_from(SHELL_CMDS)) + (" #%d" % i)
             chunks = draw(small_chunks())
             services[(b"exec:" if kind == "exec_out" else b"shell:") + cmd.encode()] = chunks
-            ops.append({"op": kind, "cmd": cmd, "decode": draw(st.booleans())})
+            o = {"op": kind, "cmd": cmd, "decode": draw(st.booleans())}
+            if fail_plans and kind == "streaming_shell" and chunks and draw(st.booleans()):
+                o["take"] = draw(st.integers(1, len(chunks)))      # the caller abandons the generator after `take` items
+            ops.append(o)
             total += sum(len(c) for c in chunks)
         elif kind == "root":
             services[b"root:"] = draw(small_chunks())
@@ -181,6 +184,12 @@ def session(draw, max_ops=5, ops_allowed=None, big=True, with_frag=False, with_w
         nrec = total // min(dev["recv_sizes"] or [65536]) + 20
         need = (total + 8 * nrec) // 2500 + 1
         dev["cuts"] = [max(c, need) for c in dev["cuts"]]
+    if fail_plans:
+        plan = draw(st.sampled_from(["none", "none", "push_fail", "push_fail", "recv_fail"]))
+        if plan == "push_fail":
+            dev["push_fail"] = {"at": draw(st.sampled_from(["send", "data", "data", "done"])), "k": draw(st.integers(0, 4)), "reason": draw(st.binary(max_size=40))}
+        elif plan == "recv_fail":
+            dev["recv_fail"] = {"after": draw(st.integers(0, 3)), "reason": draw(st.binary(max_size=40))}
     tr = {"flavour": draw(flavour())}
     if with_frag:
         tr["frag"] = tame_frag(draw(frag_tape()), total)
